@@ -62,7 +62,7 @@ def run_shard(spec, res):
             snap = svc.app.snapshot(svc.app.db_path + '.c02')
             res.count('worlds')
             for k in range(spec['queries']):
-                q = queries.gen_ac_query(rng, w)
+                q = queries.gen_ac_query(rng, w, view=v if rng.random() < 0.6 else None)
                 ver = q['version']
                 path = queries.to_path('/allocation_candidates',
                                        queries.ac_pairs(q, rng))
